@@ -17,7 +17,7 @@
 Simple audio/stream synthesis module
 """
 
-from math import sin, pi, ceil, isinf
+from math import sin, pi, ceil, floor, isinf
 try:
   from collections.abc import Iterable
 except ImportError:
@@ -545,8 +545,9 @@ class TableLookup(meta(metaclass=TableLookupMeta)):
     """
     total_length = len(self)
     tbl = self.table
-    return tbl[int(idx) % total_length] * (1. - (idx - int(idx))) + \
-           tbl[int(ceil(idx)) % total_length] * (idx - int(idx))
+    left = int(floor(idx)) # Not int(idx): negative indexes round towards -inf
+    return tbl[left % total_length] * (1. - (idx - left)) + \
+           tbl[int(ceil(idx)) % total_length] * (idx - left)
 
   def __eq__(self, other):
     if isinstance(other, TableLookup):
